@@ -53,6 +53,9 @@ package model
 //@   ensures [C08:default-padding] !haskey(options, FixedStringPadFromLeft) && !haskey(options, FixedStringPadChar) ==> result.Padding.PadChar == "' '" && result.Padding.PadLeft == false
 //@   ensures [C08:default-pad-char] !haskey(options, FixedStringPadChar) ==> result.Padding.PadChar == "' '"
 //@   ensures [C08:default-pad-side] !haskey(options, FixedStringPadFromLeft) ==> result.Padding.PadLeft == false
+//@   ensures [C08:given-pad-side] haskey(options, FixedStringPadFromLeft) && options[FixedStringPadFromLeft] == "true" ==> result.Padding.PadLeft == true
+//@   ensures [C08:given-byte-order] haskey(options, LittleEndian) && options[LittleEndian] == "true" ==> result.LittleEndian == true
+//@   ensures [C08:given-byte-order-false] haskey(options, LittleEndian) && options[LittleEndian] == "false" ==> result.LittleEndian == false
 //@   ensures [C08:given-array-prefix] haskey(options, ArrayPrefixLenType) ==> result.ListLenPrefixLenType == options[ArrayPrefixLenType]
 //@   ensures [C08:given-string-prefix] haskey(options, StringPrefixLenType) ==> result.StringLenPrefixLenType == options[StringPrefixLenType]
 //@   ensures [C08:given-pad-char] haskey(options, FixedStringPadChar) ==> result.Padding.PadChar == options[FixedStringPadChar]
